@@ -114,8 +114,46 @@ claim("C18", "proof",
       "Lean 4 proof over a hand-written model + generated copy_api/verify model + differential correspondence with extracted real code + header-level oracle on real encodes",
       "lean-correspondence")
 
+claim("C14", "proof",
+      "NULL-guard and lock tables of all 20 EB_API entry points (13 encoder, 7 decoder; 54 tracked pointers, 159 guard paths, 54 lock paths) are re-translated "
+      "from the clang AST on every run; proved over the regenerated tables: guarded parameters never dereference NULL on any path (api_null_guarded, "
+      "guard_criterion_exact), 15+ of them return a fixed error code (api_null_returns_error), every path is mutex-balanced (api_locks_balanced) and hence no call "
+      "sequence ever blocks on a leftover mutex (api_no_mutex_left_held, no_call_blocks_on_leftover_mutex: induction over the call list), reject_then_accept for "
+      "any number of rejections; negative theorems with witness paths for any pointer that is NOT guarded and for the pre-fix mutex leak (f3_leak_detected). "
+      "Call-order behaviour is a hand-written protocol automaton tied by running seeded call sequences (valid walks + malformed stream with NULL arguments and "
+      "wrong orders) against the real libraries in forked children under a watchdog; the property's oracle (every call returns; no crash, no block) runs on the real results.",
+      AX + "; xlate/apitables.py (loops unrolled 0/1, external callees conservative, refuses goto / unknown nodes / mutex calls outside API functions); order "
+      "automaton validated by correspondence only; the NULL dereferences (F7) and the mutex leak (F3) are repaired in /repo; 16 unchecked call orders remain recorded "
+      "findings; back-pressure blocking inside send_picture and use of a dangling handle are outside the model.",
+      "Lean 4 proof over tables regenerated from C source (translator) + differential correspondence in forked children",
+      "lean-translator")
+
+claim("C21", "proof",
+      "copy_frame_buffer (8-bit row loop, 10-bit un_pack2d), pad_input_picture, generate_padding and pad_input_pictures are transcribed line by line; proved for "
+      "all sizes, strides and buffer contents by induction over rows/columns: the closed form (plane8_is_edge_replication), dependence on the visible samples "
+      "only for the padded region and for the whole buffer (copyin_depends_only_on_visible, copyin_whole_buffer, 10-bit variants, pipelineIn_depends_only_on_visible "
+      "for the API geometry), the sharp spill bound (spill_witness), the exact in-bounds conditions of the copies with boundary witnesses, the uint16 stride "
+      "truncation, and caller_buffer_not_retained. Tie: the extracted real copy/pad functions run on seeded pictures (all six allocations hashed and compared with "
+      "the model; groups with equal visible samples but different strides / dirty padding must give identical real buffers), ASan boundary witnesses, and real "
+      "encodes with stride / dirty-padding / scribble-after-send / guard-page variants whose packets must be byte-identical.",
+      AX + "; hand-written model tied by correspondence; 4:2:0 only; strides < 65536; the compressed 10-bit branch is unreachable (rejected by verify_settings) and "
+      "not modelled; SIMD un_pack2d compared, not modelled; stages after pad_input_pictures exercised e2e only; use-after-send is checked with guard pages; one "
+      "recorded finding (last-row over-read of a tight caller plane).",
+      "Lean 4 proof (all sizes/strides/contents) + whole-buffer differential correspondence with the real copy-in + real-encoder oracle",
+      "lean-correspondence")
+
+claim("C26", "proof",
+      "The psnr_calculations loops (8-bit and unpacked 10-bit) are proved equal to the sum of squared differences over the unpadded window modulo 2^32, for all "
+      "sizes, origins, strides and padding contents (sse_spec, sse_spec16, sse_window_only), with no 64-bit wrap (sse64_no_wrap) and the exact truncation "
+      "condition (sse_exact_iff, sse_truncation_witness); the buffer choice is proved (pre-filter source; the same reconstruction recon_output uses: "
+      "sse_buffer_choice, measured_recon_is_decoded_with_fix). Tie: the real function text is run against Lean and an independent spec on generated planes, and "
+      "every packet of stat_report=1 real encodes is compared with the SSE between the submitted picture and the REAL decoder's output, recomputed by the Lean model.",
+      AX + "; hand-written model; 'recon == decode' is property C01 and is checked empirically only; ten_bit_format=1 and the SSIM fields are not covered; e2e "
+      "part is 8-bit; the CDEF-skipped-for-non-reference-pictures defect is repaired in /repo (725be6b); one recorded finding (overlay recon/decode mismatch, really C01).",
+      "Lean 4 proof over a hand-written model + differential correspondence (extracted real function text) + real-encoder oracle against the real decoder",
+      "lean-correspondence")
+
 _PENDING = ("check under construction (model planned in DESIGN.md section 5); not claimed until its theorem and correspondence run exist "
             "and pass on the unchanged tree")
-for _p in ["C01", "C03", "C04", "C05", "C06", "C07", "C08", "C09", "C10", "C11", "C14", "C15", "C16", "C17", "C19", "C20",
-           "C21", "C26", "C27"]:
+for _p in ["C01", "C03", "C04", "C05", "C06", "C07", "C08", "C09", "C10", "C11", "C15", "C16", "C17", "C19", "C20", "C27"]:
     NOT_CLAIMED[_p] = _PENDING
